@@ -88,7 +88,11 @@ Inductive ccase :=
 | CCheck (mt : mtab) (k : N) (hexmode : bool) (tok : bytes) (exp : option bytes)
 | CSessNew (mt : mtab) (k : N) (maxttl ttl t0 : Z) (data exp_tok : bytes) (exp_expires : Z)
 | CSessCheck (mt : mtab) (k : N) (now : Z) (tok : bytes) (exp : option (bytes * Z))
+| CSessState (mt : mtab) (k : N) (now : Z) (tok : bytes) (exp : bool)
+| CSessJson (mt : mtab) (k : N) (now : Z) (tok : bytes) (jsonok : bool) (exp : bool)
 | CGate (mt : mtab) (k : N) (maxttl now : Z) (tok : bytes) (exp : option (bytes * bool))
+| CGateCb (mt : mtab) (k : N) (maxttl now : Z) (tok : bytes) (cb : option Z)
+          (exp : option (bool * bytes * Z * bool))
 | CChal (mt : mtab) (k : N) (w now : Z) (tok : bytes) (ct : option Z) (exp : N)
 | CCoreSign (privs : list (bytes * bool)) (card : list ckey) (req : bytes) (now : Z)
             (exp_err : N) (exp_id : bytes)
@@ -103,6 +107,10 @@ Inductive ccase :=
          (hp : option header) (cp : option claims) (exp_err : N) (exp_claims : option claims)
 | CJwtRs (self : bool) (card : list ckey) (user host : bytes) (now : Z) (tok : bytes)
          (hp : option header) (cp : option claims) (exp_err : N) (exp_claims : option claims)
+| CJwtAny (vrej : bool) (now : Z) (tok : bytes)
+          (hp : option header) (cp : option claims) (exp_err : N) (exp_claims : option claims)
+| CJwtRsFetch (nocard : bool) (card : list ckey) (user host : bytes) (now : Z) (tok : bytes)
+              (hp : option header) (cp : option claims) (exp_err : N) (exp_claims : option claims)
 | CClaims (c tmpl : claims) (exp : N)
 | CJwtTime (c : claims) (now : Z) (exp : N)
 | CPass (expiry : Z) (start : rstate) (ops : list pop) (exp : list (N * rstate)).
@@ -133,10 +141,20 @@ Definition check_case (c : ccase) : bool :=
       | Some (d, l), Some (d', l') => beq_bytes d d' && (l =? l')%Z
       | _, _ => false
       end
+  | CSessState mt k now tok exp => Bool.eqb (sess_check_state (mac_of mt) k now tok) exp
+  | CSessJson mt k now tok jsonok exp =>
+      Bool.eqb (sess_check_json (mac_of mt) (fun _ => jsonok) k now tok) exp
   | CGate mt k maxttl now tok exp =>
       match sess_check (mac_of mt) k now tok, exp with
       | None, None => true
       | Some (d, lf), Some (d', nr) => beq_bytes d d' && Bool.eqb (need_refresh maxttl lf) nr
+      | _, _ => false
+      end
+  | CGateCb mt k maxttl now tok cb exp =>
+      match gate_check_token (mac_of mt) (fun _ => cb) k maxttl now tok, exp with
+      | None, None => true
+      | Some i, Some (v, u, l, r) =>
+          Bool.eqb (gi_valid i) v && beq_bytes (gi_user i) u && (gi_level i =? l)%Z && Bool.eqb (gi_refresh i) r
       | _, _ => false
       end
   | CChal mt k w now tok ct exp =>
@@ -179,6 +197,14 @@ Definition check_case (c : ccase) : bool :=
          else rs_verify (fun _ => hp) (fun _ => cp) b64_decode_canon parse_key_i rsa_verify_i
                         card now tok)
         exp_err exp_claims
+  | CJwtAny vrej now tok hp cp exp_err exp_claims =>
+      jres_agrees (any_verify (fun _ => hp) (fun _ => cp) b64_decode_canon
+                              (if vrej then Some EWrongSig else None) now tok)
+                  exp_err exp_claims
+  | CJwtRsFetch nocard card user host now tok hp cp exp_err exp_claims =>
+      jres_agrees (self_verify_fetch (fun _ => hp) (fun _ => cp) b64_decode_canon parse_key_i rsa_verify_i
+                                     (if nocard then None else Some card) user host now tok)
+                  exp_err exp_claims
   | CClaims c tmpl exp => opt_code (check_claims c tmpl) =? exp
   | CJwtTime c now exp => opt_code (check_time c now) =? exp
   | CPass expiry start ops exp => results_eqb (run expiry start ops) exp
